@@ -373,6 +373,34 @@ def run(ctx):
                     m = model.ask("wres " + target)
                     if m["openAfter"] != 0 or m["openInside"] != len([x for x in (inside or []) if x not in before]):
                         disagreements.append(dict(what="writer %s: model predicts %d open inside, measured %s" % (target, m["openInside"], inside)))
+        # writer sessions on a path that EXISTS: append with the same / another version, append to a file that is not TDMS, create
+        # with mode 'x' where the file exists (open() itself fails), with and without an index beside it; whatever happens - the
+        # with-statement may raise on entry - no descriptor remains while the writer object is still referenced
+        for with_index in (False, True):
+            for scenario in ("same version", "other version", "not a TDMS file", "mode x on an existing file", "index file is a directory"):
+                stats["writer"] += 1
+                distinct.add(("writer-existing", scenario, with_index))
+                p = os.path.join(tmp, "wx%d.tdms" % stats["writer"])
+                with W(p, version=4712, index_file=with_index) as w0:
+                    w0.write_segment([ChannelObject("g", "c", np.arange(3))])
+                if scenario == "not a TDMS file":
+                    open(p, "wb").write(b"this is not a TDMS file at all")
+                if scenario == "index file is a directory" and not os.path.exists(p + "_index"):
+                    os.mkdir(p + "_index")
+                before = open_fds(tmp)
+                w, raised = None, None
+                try:
+                    w = W(p, mode="x" if scenario.startswith("mode x") else "a", version=4713 if scenario == "other version" else 4712,
+                          index_file=with_index or scenario.startswith("index file is"))
+                    with w:
+                        w.write_segment([ChannelObject("g", "c", np.arange(2))])
+                except Exception as ex:  # noqa
+                    raised = type(ex).__name__
+                after = open_fds(tmp)
+                if after != before:
+                    viol("TdmsWriter on an existing path (%s, index_file=%s; %s) leaves descriptors open while the writer is still referenced: %s" % (
+                        scenario, with_index, "raised %s" % raised if raised else "no exception", after), target=scenario)
+                del w
     finally:
         shutil.rmtree(tmp, ignore_errors=True)
     obs = sorted(set(observations))
